@@ -337,9 +337,27 @@ theorem rstep_invE {s s' : St} {f : Flag} {ev : List String} (hi : InvE s)
     have hne : m.w ≠ s.cfg.W := Nat.ne_of_lt (e1 m hm).1
     rw [ho, (hf _ hne).1, (hf _ hne).2]; exact e5 m hm
 
+/-- the interrupted futex wait touches nothing `InvE` mentions (a parked thread has not published) -/
+theorem spur_invE {s : St} {t : Nat} {q : Pc} (hi : InvE s)
+    (hq : (∃ rpos, s.pc t = .rBlocked rpos ∧ q = .rLdW rpos) ∨ (s.pc t = .wBlocked ∧ q = .wLock)) :
+    InvE { s with pc := upd s.pc t q } := by
+  have hp : ∀ u, published (upd s.pc t q u) = published (s.pc u) := by
+    intro u
+    by_cases hu : u = t
+    · subst hu
+      rcases hq with ⟨rpos, h1, rfl⟩ | ⟨h1, rfl⟩ <;> simp [h1, published]
+    · rw [upd_other _ _ _ _ hu]
+  obtain ⟨e1, e2, e3, e4, e5⟩ := hi
+  refine ⟨?_, e2, e3, ?_, ?_⟩
+  · intro m hm; simp only [hp]; exact e1 m hm
+  · intro u hu hpu; simp only [hp] at hpu; exact e4 u hu hpu
+  · intro m hm; simp only [hp]; exact e5 m hm
+
 theorem step_invE {s s' : St} {tok : Tok} {ev : List String} (hi : InvE s)
     (h : step s tok = some (s', ev)) : InvE s' := by
-  unfold step at h
+  rcases step_cases h with ⟨-, q, rfl, hq⟩ | h
+  · exact spur_invE hi hq
+  unfold stepMain at h
   split at h
   · cases h
   next hen =>
